@@ -1,6 +1,6 @@
 #!/bin/sh
 # usage: seedsweep.sh [seed-id ...]   - developer helper: (re)test seeded changes in a scratch worktree of /repo HEAD (VERIF_REPO), leaving /repo alone
-W=/tmp/wt/seedscratch2
+W=${SWEEP_WT:-/tmp/wt/seedscratch2}
 cd /repo && { [ -d $W ] || git worktree add -f $W HEAD >/dev/null 2>&1; }
 cd $W && git checkout -q --detach $(git -C /repo rev-parse HEAD) && git checkout -q -- . 
 seeds="$@"; [ -n "$seeds" ] || seeds=$(ls /verif/seeded)
@@ -9,7 +9,7 @@ for s in $seeds; do
   cd $W && git checkout -q -- .
   if ! git apply /verif/seeded/$s/patch.diff 2>/dev/null; then echo "$s DOES-NOT-APPLY"; continue; fi
   cd /verif
-  out=$(VERIF_EVIDENCE_DIR=/tmp/wt/seed-evidence2 VERIF_REPO=$W /venv/bin/python -B engine/run.py $prop --tier quick 2>&1)
+  out=$(VERIF_EVIDENCE_DIR=${SWEEP_EV:-/tmp/wt/seed-evidence2} VERIF_REPO=$W /venv/bin/python -B engine/run.py $prop --tier quick 2>&1)
   rc=$?
   echo "$s rc=$rc $(echo "$out" | grep -v "^KNOWN-FINDING" | tail -1 | cut -c1-120) oracles=$(echo "$out" | grep "^VIOLATION" | sed "s/.*oracle=//" | sort -u | tr "\n" "," )"
 done
